@@ -10,6 +10,7 @@ import (
 	"go/ast"
 	"go/token"
 	"go/types"
+	"os"
 	"sort"
 	"strings"
 
@@ -76,6 +77,10 @@ type Flow struct {
 
 type deferred struct {
 	call *ast.CallExpr
+	// path condition under which the defer statement ran, and whether a join met paths that did not register it
+	// (then the call runs under that condition only)
+	guard string
+	cond  bool
 }
 
 type Frame struct {
@@ -99,11 +104,11 @@ type Frame struct {
 }
 
 type Exec struct {
-	curInst []types.Type // type arguments of the generic callee whose contract is being applied
-	addrCells map[*ast.UnaryExpr]Term // &x.fld arguments of the call being executed -> their cell
-	assignLHS string
-	specDefs  map[string]*specDef
-	sliceOrig map[string]*sliceOrigin
+	curInst     []types.Type            // type arguments of the generic callee whose contract is being applied
+	addrCells   map[*ast.UnaryExpr]Term // &x.fld arguments of the call being executed -> their cell
+	assignLHS   string
+	specDefs    map[string]*specDef
+	sliceOrig   map[string]*sliceOrigin
 	prog        *Program
 	vc          *VC
 	mode        string // "seq" | "conc"
@@ -351,8 +356,27 @@ func (e *Exec) merge(states []*State) *State {
 			epochSame = false
 		}
 	}
+	{
+		anyHv := false
+		hv := "false"
+		for i := len(live) - 1; i >= 0; i-- {
+			v := "false"
+			if t, ok := live[i].vars["$hv"]; ok {
+				v = t.S
+				anyHv = true
+			}
+			if i == len(live)-1 {
+				hv = v
+			} else {
+				hv = fmt.Sprintf("(ite %s %s %s)", live[i].pc, v, hv)
+			}
+		}
+		if anyHv {
+			out.vars["$hv"] = Term{e.vc.Define("hv", "Bool", hv), tBool}
+		}
+	}
 	for _, k := range ks {
-		if k == "$epoch" {
+		if k == "$epoch" || k == "$hv" {
 			continue
 		}
 		var first Term
@@ -426,21 +450,55 @@ func (e *Exec) merge(states []*State) *State {
 			}
 		}
 	}
-	for _, s := range live {
-		for f, l := range s.defers {
+	// deferred calls, per activation: the calls every joined path registered (same statement, same path condition)
+	// stay unconditional; the others run under the path condition of their own defer statement only (the paths
+	// are mutually exclusive, so the order between calls of different paths does not matter)
+	{
+		frames := map[*Frame]bool{}
+		var order []*Frame
+		for _, s := range live {
+			for f := range s.defers {
+				if !frames[f] {
+					frames[f] = true
+					order = append(order, f)
+				}
+			}
+		}
+		for _, f := range order {
+			common := 0
+			for {
+				ok := true
+				for _, s := range live {
+					l := s.defers[f]
+					l0 := live[0].defers[f]
+					if common >= len(l) || common >= len(l0) || l[common].call != l0[common].call || l[common].guard != l0[common].guard || l[common].cond != l0[common].cond {
+						ok = false
+						break
+					}
+				}
+				if !ok {
+					break
+				}
+				common++
+			}
+			var l []deferred
+			l = append(l, live[0].defers[f][:common]...)
+			seen := map[string]bool{}
+			for _, s := range live {
+				for _, d := range s.defers[f][common:] {
+					key := fmt.Sprintf("%p/%s", d.call, d.guard)
+					if seen[key] {
+						continue
+					}
+					seen[key] = true
+					d.cond = true
+					l = append(l, d)
+				}
+			}
 			if out.defers == nil {
 				out.defers = map[*Frame][]deferred{}
 			}
-			if cur, ok := out.defers[f]; !ok || len(l) > len(cur) {
-				out.defers[f] = l
-			}
-		}
-	}
-	for _, s := range live {
-		for f, l := range out.defers {
-			if len(s.defers[f]) != len(l) {
-				e.note("paths with different deferred calls are joined at %s: the longer list is used", e.curPos)
-			}
+			out.defers[f] = l
 		}
 	}
 	if epochSame {
@@ -616,7 +674,7 @@ func (e *Exec) stmt(s ast.Stmt, st *State, fr *Frame) Flow {
 		if st.defers == nil {
 			st.defers = map[*Frame][]deferred{}
 		}
-		st.defers[fr] = append(st.defers[fr], deferred{x.Call})
+		st.defers[fr] = append(st.defers[fr], deferred{call: x.Call, guard: st.pc})
 		// arguments of deferred calls are evaluated now in Go; the kernels only defer
 		// argument-less unlock/done/close calls and closures, so nothing to snapshot.
 		return Flow{norm: st}
@@ -771,6 +829,18 @@ func (e *Exec) finishReturn(r *Ret, fr *Frame) {
 	delete(st.defers, fr)
 	for i := len(dl) - 1; i >= 0; i-- {
 		d := dl[i]
+		if os.Getenv("GOVC_DEBUG") != "" {
+			fmt.Fprintf(os.Stderr, "DEBUG defer in %s: cond=%v guard=%s pc=%s\n", e.fnName, d.cond, d.guard, st.pc)
+		}
+		if d.cond && !st.dead() {
+			on := st.clone()
+			on.pc = e.vc.Define("pc", "Bool", fmt.Sprintf("(and %s %s)", st.pc, d.guard))
+			off := st.clone()
+			off.pc = e.vc.Define("pc", "Bool", fmt.Sprintf("(and %s (not %s))", st.pc, d.guard))
+			e.call(d.call, e.ctx(on, fr), 0)
+			*st = *e.merge([]*State{on, off})
+			continue
+		}
 		c := e.ctx(st, fr)
 		e.call(d.call, c, 0)
 	}
